@@ -256,9 +256,14 @@ func httpEngGen(rng *rand.Rand, n int, emit func(string)) {
 		}
 		emit(httpGenFault(frng, host, path, r.usr))
 	}
+	// ERROR PATHS AGAINST A BODY IN FLIGHT (eng_http_err.go), from an RNG of their own, every 70th op
+	errGen := &httpGenErrState{r: sideRng(0xe404)}
 	for i := 0; i < n; i++ {
 		if i%24 == 23 {
 			faultOp()
+		}
+		if i%70 == 35 {
+			errGen.op(routes, gone, emit)
 		}
 		k := rng.Intn(1000)
 		switch {
@@ -266,6 +271,9 @@ func httpEngGen(rng *rand.Rand, n int, emit func(string)) {
 			emit("reset")
 			routes = map[string]httpGenRoute{}
 			gone = nil
+			errGen.reset()
+			errGen.op(routes, gone, emit) // the table is empty: no host has a route
+			errGen.op(routes, gone, emit)
 		case k < 120:
 			d := pick(rng, httpGenDomains)
 			if rng.Intn(12) == 0 {
